@@ -93,6 +93,17 @@ CHECKS = {
    text="Theorems: partition, thermal_isotropic(_stored), thermal_zero_if_unchanged, thermal_const_cte, thermal_affine_cte, stored_symmetric, strain_symmetric, causal, elastic_path_independent (expansion coefficient affine in T over the step), path_dependent_outside_hypothesis (witness with a quadratic coefficient: finding F25), free_expansion. Tied to srlife by comparing calculate_mechanical_strain, _setup_state, dump_state and the accepted sub-increments of the real solve loop with the model bit-exactly (alpha values from the real NEML material sent along), and by real solves over multi-step temperature/pressure histories in all three abstractions (constant-alpha elastic, shipped 316H elastic and creeping models): partition, isotropy, zero-if-unchanged, alpha*(T-T0), symmetry, free expansion, truncation bit-equal (causality), path independence under forced subdivision and under scripted retries.",
    note="Trusted: Lean kernel + Mathlib; NEML's alpha(T) and stress update; the hypothesis Step.Closed (last accepted sub-increment ends the step) is C10's success_spec; free expansion is evaluated with tight inner tolerances. Open finding F25: elastic state depends on subdivision when alpha is not affine in T over a step.",
    design="4/C15"),
+ "C08": dict(
+   technique="Lean 4 proof of the scheduling bookkeeping (ordered gather under any completion permutation and chunking, dispatch branches, copy-back, edge-parallel assembly) + differential execution of the real stages across worker counts, paging and progress options (bit-for-bit)",
+   category="proof",
+   text="PARTIAL by nature: most of this property lives in the runtime (fork, dill pickling, mmap, BLAS threading, the OS scheduler), which no theorem here describes. Proved, for every task count, chunk size and completion order: gather_schedule_independent, gather_default_chunk, install_map, rj_parallel_equal, evalN_eq_evalSeq, dispatch_equal, copy_complete, solve_schedule_independent, dispatch_total, dispatchOf_none_iff, dispatch_reachable, life_schedule_independent. The rest is carried by differential runs of the real thermal, coupled-thermal, structural/system and damage/reliability stages through SolutionManager with nthreads in {1,2,4} (thorough: up to 16), paging on/off, progress on/off, on receivers that hit both dispatch branches (instrumented and compared with the model's dispatch rule), every result array compared bit-for-bit with an in-process reference; observed out-of-order completion orders of real Pool.map/imap runs are fed to the model's gather.",
+   note="Trusted / not modelled: process creation, dill serialisation (F24 repaired: memmap reducer), memory-mapped files, BLAS threading determinism, the scheduler (quantified over as an arbitrary order). srlife exposes no chunk-size option, so chunking varies only through nthreads. Quick tier takes about 3 minutes because each configuration starts real process pools.",
+   design="4/C08"),
+ "C11": dict(
+   technique="Lean 4 proof (tensor contraction identity for the coded einsum; Schur-complement derivative with HasDerivAt; positivity of the Schur complement of a symmetric positive definite Jacobian) + Float correspondence of the coded stiffness arithmetic + finite-difference validation of dF/dd on real solves for every shipped deformation model",
+   text="Theorems: coded_spec_is_full / pinned_spec_is_trace (meaning of the einsum subscripts, which are read from the source by ast on every run), integrand_is_contraction, pinned_trace_differs (witness for the repaired F23), schur_derivative, schur_hasDerivAt, schur_response_exists, schur_3d (1^T(J22 - J21 J11^-1 J12)1), gps_derivative (generalised-plane-strain form = dF/d(d_top)), schurK_eq, gpsStiffness_eq, stiffness_pos, stiffness_pos_gps. Tied to srlife by comparing the coded stiffness arithmetic on real solver objects with random full tangents (1e-16) and calculate_axial_from_fea with a dense Schur complement (1e-14), and by comparing state.stiffness with a central-difference ladder of state.force at every step of 29 histories per run (1D, 2D for every shipped inelastic variant, small 3D; load multipliers 1/3/6; tolerance 1e-6 elastic, 1e-3 inelastic; stiffness > 0).",
+   note="Trusted: Lean kernel + Mathlib; NEML's algorithmic tangent = derivative of its stress update, symmetric positive definite (hypothesis of stiffness_pos for inelastic models); scikit-fem assembly; the finite differences run the solver with tight inner tolerances (rtol 1e-12) because the reported stiffness is the derivative of the converged force; steps whose Newton iteration went through an exactly singular linear solve are skipped and counted; histories that do not converge or exceed the time guard are skipped and counted (obligation fails above 25 %).",
+   design="4/C11"),
 }
 PENDING_REASON = "check not built yet in this round (work in progress; see DESIGN.md section 4 for the planned model and theorems) — not claimed"
 
